@@ -41,4 +41,13 @@ theorem fill_gaps_count_spec [Inhabited (V2 ℝ)] [Inhabited (V3 ℝ)] (d maxd :
     ∀ j, 1 ≤ j → j < GenRs.fill_gaps_count d maxd fuel → maxd < d / ((j : ℝ) + 1) := by
   rw [C05T.fill_gaps_count_eq, ofNatS_real]
   exact C05.gapCount_spec d maxd fuel 1 h
+/-! ### `simplify` (2-D and 3-D): which tolerance goes where (regenerated arguments) -/
+
+/-- the reduction runs with the tolerance that was ASKED for — not with the curve's own, not with the larger of the
+    two — and the simplified curve keeps the curve's own vertex tolerance — not the simplification tolerance -/
+theorem simplify_tolerances (e curve_tol : ℝ) :
+    GenRs.simplify3_reduction_tol e curve_tol = e ∧ GenRs.simplify3_vertex_tol e curve_tol = curve_tol ∧
+    GenRs.simplify2_reduction_tol e curve_tol = e ∧ GenRs.simplify2_vertex_tol e curve_tol = curve_tol :=
+  ⟨rfl, rfl, rfl, rfl⟩
+
 end C05U
